@@ -761,6 +761,27 @@ struct Sim {
     }
 
     // ------------------------------------------------------------------ enabled events
+    // Distinct (state, event) pairs: a state met first deep in the tree and later nearer the root is expanded twice by
+    // forksim (in an order that depends on worker timing); the evidence counts every transition once.
+    std::atomic<uint64_t>* exp_table{nullptr};
+    std::atomic<uint64_t>* distinct_transitions{nullptr};
+    static constexpr size_t EXP_BITS = 21;
+    bool MarkExpanded(uint64_t k)
+    {
+        if (k == 0) k = 1;
+        size_t mask = ((size_t)1 << EXP_BITS) - 1;
+        size_t i = (k * 0x9E3779B97F4A7C15ULL >> 20) & mask;
+        for (size_t probes = 0; probes <= mask; probes++, i = (i + 1) & mask) {
+            uint64_t cur = exp_table[i].load();
+            if (cur == k) return false;
+            if (cur == 0) {
+                if (exp_table[i].compare_exchange_strong(cur, k)) return true;
+                if (cur == k) return false;
+            }
+        }
+        throw std::runtime_error("poolsim: expanded-state table full");
+    }
+
     std::vector<std::string> Events()
     {
         Snap s = Take();
@@ -815,6 +836,7 @@ struct Sim {
             }
             if (Build(c, s).kind != Act::NONE) ev.push_back(c);
         }
+        if (exp_table && MarkExpanded(KeyOf(s))) *distinct_transitions += ev.size();
         return ev;
     }
 
@@ -960,8 +982,24 @@ struct Sim {
             fs::path d = n.BlocksDir().parent_path() / ("w" + std::to_string(w));
             n.RepointBlocksDir(d);
         };
+        size_t n_exp = (size_t)1 << EXP_BITS;
+        exp_table = (std::atomic<uint64_t>*)mmap(nullptr, (n_exp + 1) * 8, PROT_READ | PROT_WRITE, MAP_SHARED | MAP_ANONYMOUS, -1, 0);
+        if (exp_table == MAP_FAILED) throw std::runtime_error("poolsim: mmap failed");
+        distinct_transitions = exp_table + n_exp;
+        vx::Evidence& E = vx::ev();
+        uint64_t before = E.transitions.load();
         fs.run();
+        uint64_t executed = E.transitions.load() - before;
+        uint64_t distinct = distinct_transitions->load();
+        if (!fs.sh->deadline_hit.load()) {
+            // every distinct transition was executed at least once; re-expansions are reported separately
+            E.transitions -= executed; E.transitions += distinct;
+            E.traces_validated -= executed; E.traces_validated += distinct;
+        }
+        executed_transitions += executed;
+        exp_table = nullptr;
     }
+    uint64_t executed_transitions{0};
 };
 
 inline NodeOpts MakeNodeOpts(const Opts& o)
